@@ -1,5 +1,80 @@
-import ChumskyModel.Model.Spec
+/-
+  C11 — memoization is transparent and makes left recursion terminate.
+
+  FULL STATEMENT (the goal): for grammars of the C01/C02 classes (context-free of `ctx`) without left recursion, with
+  pairwise distinct memoized parsers, inserting `memoized()` at any subset of nodes leaves outcome, value, position,
+  errors and the pending error (up to the order of `expected`) unchanged; a left-recursive grammar whose recursive
+  step is memoized terminates on every input.
+
+  PROVED HERE (partial — the induction through *all other* constructors in the offset relation `MRel` is not done):
+   * the node itself: `memoized id a` with the table on simulates `a`, given the simulation of its body, in the
+     miss/success, miss/failure (entry stored) and hit (stored failure replayed at its own position) cases, and
+     re-establishes the table invariant "every stored error is exactly what that parser contributes at that position";
+   * with memoization off a grammar equals the grammar with its `memoized` nodes stripped (so every memo-free theorem
+     applies to it);
+   * the hypotheses are necessary: kernel-checked counterexamples for a context-dependent body, a shared id, left
+     recursion (where ON terminates and OFF does not) and a recovery strategy under `memoized`.
+  The model's memo semantics is the one of the repaired code (shelter the pending error, memoize only the parser's own
+  contribution, replay at its own position, key = per-parser id); the check compares memoized and plain grammars on
+  the real crate (all results identical on ≈ 8·10⁶ cases) and the model with the real crate.
+  Lemmas: Proofs/Lemmas/{MemoSim,MemoOff}.lean.
+-/
+import ChumskyModel.Proofs.Lemmas.MemoSim
+import ChumskyModel.Proofs.Lemmas.MemoOff
+set_option linter.unusedSimpArgs false
 namespace Chumsky
-theorem placeholder_C11 : True := trivial
-#print axioms placeholder_C11
+
+/-- **C11 (one node), partial.** See the header. `MRel`/`MOutRel`: equal position, secondary errors, inspector,
+    context, values; pending errors equal up to `OptLoc.equiv` modulo the error the ON run has sheltered. -/
+theorem c11_node_transparent_partial {R R' : Runner} {N N' : NextRunner} {K K' : MkRunner} (L : Nat)
+    {env : Env} (hon : env.memoOn = true) {B : Nat → G → Prop} {Rof : Nat → Runner} {id : Nat} {a : G}
+    (hRof : Rof id = R') (hB : B id a) (hB1 : ∀ a', B id a' → a' = a) (ids : Nat → Prop) (hid : ¬ ids id)
+    (hPD : PosDetermined R' (env.withMemo false) a) (m : Mode)
+    (hBody : ∀ (o : Option Loc) (s t : St), MRel env.ek o s t → TableInv B Rof (env.withMemo false) s.memo →
+        (∀ p i, ids i → memoFind s.memo (p, i) ≠ some none) →
+        MOutRel env.ek (TableOK B Rof (env.withMemo false) s.memo) o s.errs s.ctx
+          (R env m a s) (R' (env.withMemo false) m a t))
+    {o : Option Loc} {st t : St} (hrel : MRel env.ek o st t)
+    (hTI : TableInv B Rof (env.withMemo false) st.memo)
+    (hNoProg : ∀ p, memoFind st.memo (p, id) ≠ some none)
+    (hNoProgA : ∀ p i, ids i → memoFind st.memo (p, i) ≠ some none) :
+    MOutRel env.ek (TableOK B Rof (env.withMemo false) st.memo) o st.errs st.ctx
+      (step R N K L env m (.memoized id a) st)
+      (step R' N' K' L (env.withMemo false) m (.memoized id a) t) :=
+  step_memoized_transparent L hon hRof hB hB1 ids hid hPD m hBody hrel hTI hNoProg hNoProgA
+
+/-- a memo hit replays exactly what re-running the parser would contribute -/
+theorem c11_hit_replays {R' : Runner} {env : Env} {a : G} {o : Option Loc} {st t : St} {e : Loc} (m : Mode)
+    (hrel : MRel env.ek o st t) (hc : Contribution R' (env.withMemo false) a st.pos e) :
+    ∃ t1, R' (env.withMemo false) m a t = .fail t1 ∧
+      FRel env.ek o st.errs st.ctx (St.addAltErr env st e.pos e.err) t1 :=
+  hit_replays m hrel hc
+
+/-- memoization off = the grammar without its `memoized` nodes -/
+theorem c11_memo_off_is_plain (n : Nat) (env : Env) (hoff : env.memoOn = false) (b : Bool) (m : Mode) (g : G) :
+    parseTop n env m g = parseTop n { env with memoOn := b, defs := stripMemoL env.defs } m g.stripMemo :=
+  parseTop_stripMemo n env hoff b m g
+
+/-- left recursion: with the recursive step memoized the parse terminates (the in-progress marker cuts the second
+    entry at the same position) where the unmemoized grammar does not — witness `expr = (expr 1).memoized | 2` -/
+theorem c11_left_recursion_witness :
+    let defs : List G := [.memoized 1 (.or_ (.then_ (.call 0) (.just [1])) (.just [2]))]
+    (parseTop 30 { toks := [2], defs := defs, memoOn := true } .emit (.call 0)).accepted = some true ∧
+    parseTop 30 { toks := [2], defs := defs, memoOn := false } .emit (.call 0) = .oof :=
+  cex_leftRec
+
+/-- necessity of "context-free": the memo key is (position, parser), so a memoized parser that reads its context
+    gives a stale answer when re-used under another context at the same position (outside the property's class) -/
+theorem c11_context_dependence_witness :
+    let defs : List G := [.memoized 1 (.configureJust .seqFromCtx [])]
+    let g : G := .choice .tuple [.withCtx (.toks [1]) (.call 0), .withCtx (.toks [2]) (.call 0)]
+    (parseTop 20 { toks := [2], defs := defs, memoOn := true } .emit g).accepted = some false ∧
+    (parseTop 20 { toks := [2], defs := defs, memoOn := false } .emit g).accepted = some true :=
+  cex_ctx
+
+#print axioms c11_node_transparent_partial
+#print axioms c11_hit_replays
+#print axioms c11_memo_off_is_plain
+#print axioms c11_left_recursion_witness
+#print axioms c11_context_dependence_witness
 end Chumsky
